@@ -171,6 +171,10 @@ func (g *fgen) leaf() *Ft {
 	case 7:
 		// value list f:(v1 OR v2 OR ...)
 		n := 2 + r.Intn(3)
+		if r.Chance(1, 20) {
+			// long lists of one kind, around the sizes at which code switches to a bulk path
+			n = Pick(r, []int{15, 16, 17, 18, 31, 32, 33, 40})
+		}
 		vals := make([]Leaf, n)
 		for i := range vals {
 			vals[i] = g.strVal()
